@@ -84,23 +84,23 @@ TraceInit == Init /\ l = 1 /\ TLCSet(1, 0)
 Reset ==
   /\ Line.op = "Reset"
   /\ fq' = [k \in QKeys |-> None] /\ fz' = [k \in ZKeys |-> None]
-  /\ last' = MkLast("Init", <<>>, <<>>, Miss, 0, FALSE, "-")
+  /\ last' = MkLast("Init", NoA, <<>>, Miss, 0, FALSE, "-")
 
 Observe ==
   /\ Line.op # "Reset"
   /\ RowsKnown
   /\ fq' = ObsQ /\ fz' = ObsZ
   /\ last' = CASE Line.op = "Request" ->
-                    MkLast("Request", <<Line.k, Line.o, Line.z>>, Line.k,
+                    MkLast("Request", A(0, Line.o, Line.z), Line.k,
                            [Miss EXCEPT !.hit = Line.hit, !.kind = IF Line.hit THEN "?" ELSE "-"], 0, Line.down, Line.res)
                [] Line.op = "Finish" ->
-                    MkLast("Finish", <<Line.r, Line.k, Line.o, Line.z>>, Line.k, Miss, 0, TRUE, Line.res)
+                    MkLast("Finish", A(Line.r, Line.o, Line.z), Line.k, Miss, 0, TRUE, Line.res)
                [] Line.op \in {"Begin", "Wake"} ->
-                    MkLast(Line.op, <<Line.r>>, Line.k,
+                    MkLast(Line.op, A(Line.r, "-", -1), Line.k,
                            [Miss EXCEPT !.hit = Line.hit, !.kind = IF Line.hit THEN "?" ELSE "-"], 0, Line.down, Line.res)
                [] Line.op \in {"Lookup", "LookupWire", "RetryKey", "RecordQuestion", "ResetQuestion", "ResetMatching"} ->
-                    MkLast(Line.op, <<Line.k>>, Line.k, ObsRes, Line.n, FALSE, "-")
-               [] OTHER -> MkLast(Line.op, <<>>, <<>>, ObsRes, Line.n, FALSE, "-")
+                    MkLast(Line.op, NoA, Line.k, ObsRes, Line.n, FALSE, "-")
+               [] OTHER -> MkLast(Line.op, NoA, <<>>, ObsRes, Line.n, FALSE, "-")
   /\ IF Predicted THEN TRUE ELSE TLCSet(1, TLCGet(1) + 1)
 
 TraceNext ==
